@@ -146,6 +146,23 @@ def decompress_agreement(prog, rep, mod):
         if a is not None:
             asserted.add(a)
     rep.floor(rule, len(asserted), 1, "%s: flag asserts in decompress_impl" % tag)
+    # needs_decompression and read_impl agree on the length limit: both give up only for len > MAX_PACKETSIZE, so a compressed
+    # datagram of exactly MAX_PACKETSIZE bytes that read_impl sends to decompress_impl passes the assert there
+    from .common import holds_at, want_relations
+    mp = prog.constv(mod + "::MAX_PACKETSIZE")
+    falses = []
+    for bi in sorted(nd.live):
+        for si, st in enumerate(nd.blocks[bi]["st"]):
+            if st["k"] == "assign" and st["p"]["l"] == 0 and not st["p"].get("pr"):
+                e = nir.rvalue(st["r"], (bi, si))
+                if e[0] == "c" and e[1] == 0:
+                    rels = holds_at(nir, bi)
+                    if rels and rels[0][0] != "bool" and rels[0][0][0] == "len":
+                        falses.append((bi, rels, st.get("ln")))
+    rep.floor(rule, len(falses), 1, "%s: length test of needs_decompression" % tag)
+    for bi, rels, ln in falses:
+        want_relations(rep, rule, "%s | needs_decompression gives up only above MAX_PACKETSIZE" % tag, rels[:1], [("len(", "Gt", mp)], nd.loc(ln),
+                       "return false for an over-long datagram")
     fmt = lambda s_: sorted("flags & %#x %s 0" % (m, "==" if z else "!=") for m, z in s_ if m != "?")
     ok = asserted <= true_atoms
     rep.ob(rule, "%s | needs_decompression implies decompress_impl's asserts" % tag, ok,
